@@ -30,7 +30,9 @@ import core
 RULE = ("rotation grids cube4D_N and randomQ_N for every N of the tier list (quick: 1..12, 17 and two seed-chosen N in 13..40, plus the large "
         "grids randomQ_120 and one of randomQ_100/150 by seed with the statement oracle only - cells with fewer than dim+1 helper "
         "points occur only there; thorough: every N <= 60 and 80, 100, 120, 150, 272 with model tie and oracle), each a fresh factory object; direction grids ico/cube3D/randomS with N = 1..6; "
-        "MikroVoronoi(d, N) directly incl. the error branches; seed-dependent random double covers G ++ -G pushed through "
+        "histories on ONE grid object (the array returned by the default / only_upper=True getter is overwritten in place - rows negated, "
+        "permuted, reversed, zeroed - before, between and after the requests for volumes; the result must stay that of a fresh object "
+        "and the prefix of the double-cover volumes of the grid the object reports); MikroVoronoi(d, N) directly incl. the error branches; seed-dependent random double covers G ++ -G pushed through "
         "HalfRotobjVoronoi; synthetic AbstractVoronoi objects (3-D and 4-D, duplicated and np.isclose-near vertices, duplicated / "
         "non-unit centres = exact assignment ties, cells without helper points, all-zero helper point, no helper points); "
         "synthetic half selections with coordinates inside/at/outside the 1e-8 tolerance of q_in_upper_sphere. "
@@ -355,6 +357,82 @@ def ev_randgrid(rec, case):
     oracle_rotation(rec, case, label, N, grid, vols, banded=False)
 
 
+def ev_history(rec, case):
+    """One grid object, its returned arrays overwritten by the caller between the requests for volumes.
+    The default 4-D getter get_grid_as_array() (= only_upper=True) hands out a copy, so writing into what it returned must
+    not change what the object reports: N volumes, those of a fresh object, and the first N of the 2N double-cover volumes
+    of the grid the object itself reports.  (only_upper=False returns the stored array and is never written to.)"""
+    from molgri.space.rotobj import SphereGrid4DFactory
+    from molgri.space.voronoi import RotobjVoronoi
+    alg, N, order = case["alg"], int(case["N"]), case["order"]
+    label = f"{alg}_{N}:{order}"
+    rng = np.random.default_rng([MC_SEED, int(case["seed"]), N])
+    try:
+        with core.quiet():
+            fresh = np.asarray(SphereGrid4DFactory.create(alg, N).get_spherical_voronoi().get_voronoi_volumes(), dtype=float)
+            g = SphereGrid4DFactory.create(alg, N)
+    except Exception as e:
+        rec.fail.append((f"C15:exception:{alg}_{N}", f"volumes of a fresh {alg}_{N} raised {core.errname(e)}", case))
+        return
+
+    def overwrite(kind, which):
+        with core.quiet():
+            a = g.get_grid_as_array() if which == "default" else g.get_grid_as_array(only_upper=True)
+        if not a.flags.writeable or len(a) == 0:
+            return
+        if kind == "negate":
+            rows_ = rng.choice(len(a), size=max(1, len(a) // 2), replace=False)
+            a[rows_] *= -1
+        elif kind == "permute":
+            a[:] = a[rng.permutation(len(a))]
+        elif kind == "reverse_negate":
+            a[:] = -a[::-1]
+        elif kind == "zero":
+            a[:] = 0.0
+
+    def check(step):
+        try:
+            with core.quiet():
+                v = np.asarray(g.get_spherical_voronoi().get_voronoi_volumes(), dtype=float)
+                cur = np.array(g.get_grid_as_array(only_upper=False), dtype=float, copy=True)
+        except Exception as e:
+            rec.fail.append((f"C15:history:{label}:{step}:exception", f"volumes after the history raised {core.errname(e)}", case))
+            return False
+        if len(v) != N:
+            rec.fail.append((f"C15:history:{label}:{step}:count", f"{len(v)} volumes for N = {N} after the caller wrote into a returned array",
+                             case, N, len(v)))
+            return False
+        if not np.allclose(v, fresh, rtol=1e-12, atol=0):
+            rec.fail.append((f"C15:history:{label}:{step}:fresh", "volumes differ from those of a fresh object after the caller wrote into a "
+                             "returned array", case, [float(x) for x in fresh], [float(x) for x in v]))
+            return False
+        if N >= 4:
+            try:
+                with core.quiet():
+                    allv = np.asarray(RotobjVoronoi(cur).get_voronoi_volumes(approx=True), dtype=float)
+            except Exception as e:
+                rec.fail.append((f"C15:history:{label}:{step}:exception", f"double-cover volumes of the reported grid raised {core.errname(e)}", case))
+                return False
+            if len(allv) != 2 * N or not np.allclose(v, allv[:N], rtol=1e-12, atol=0):
+                rec.fail.append((f"C15:history:{label}:{step}:prefix", "volumes are not the first N of the 2N double-cover volumes of the grid the "
+                                 "object reports after the caller wrote into a returned array", case,
+                                 [float(x) for x in allv[:N]], [float(x) for x in v]))
+                return False
+        return True
+
+    steps = case["steps"]
+    ok = True
+    if order == "volumes_first":
+        ok = check("initial")
+    for k, (kind, which) in enumerate(steps):
+        if not ok:
+            break
+        overwrite(kind, which)
+        ok = check(f"after_{k + 1}_{kind}")
+    rec.b("history_" + order)
+    rec.nt.append(("history", alg, N, order, tuple(map(tuple, steps))))
+
+
 # ------------------------------------------------------------------------------------------------------------------
 # small kinds, evaluated in batches (one or two driver calls per batch)
 # ------------------------------------------------------------------------------------------------------------------
@@ -645,7 +723,7 @@ def jobs_for(ctx):
     seen = set()
     for f in ctx.open_findings + ctx.fixed_findings:          # corpus first
         for c in f.get("cases", []):
-            jobs.append((c["kind"], c) if c["kind"] in ("grid", "randgrid") else ("small", [c]))
+            jobs.append((c["kind"], c) if c["kind"] in ("grid", "randgrid", "history") else ("small", [c]))
             if c["kind"] == "grid":
                 seen.add((c["alg"], c["N"]))
     for N in tier_Ns(ctx):
@@ -659,6 +737,12 @@ def jobs_for(ctx):
     for _ in range(nrand):
         N = ctx.rng.choice([4, 5, 6, 7, 9, 12] if ctx.quick else [4, 5, 6, 7, 8, 9, 11, 14, 20, 30])
         jobs.append(("randgrid", {"kind": "randgrid", "N": N, "seed": ctx.rng.randrange(10 ** 6)}))
+    kinds = ["negate", "permute", "reverse_negate", "zero"]
+    for _ in range(6 if ctx.quick else 40):
+        N = ctx.rng.choice([4, 5, 6, 8, 9, 12] if ctx.quick else [1, 3, 4, 5, 6, 8, 9, 12, 17, 25])
+        steps = [[ctx.rng.choice(kinds[:3] if k == 0 else kinds), ctx.rng.choice(["default", "only_upper"])] for k in range(2)]
+        jobs.append(("history", {"kind": "history", "alg": ctx.rng.choice(["randomQ", "cube4D"]), "N": N, "seed": ctx.rng.randrange(10 ** 6),
+                                 "order": ctx.rng.choice(["overwrite_first", "volumes_first"]), "steps": steps}))
     small = []
     for d in (3, 4, 2, 5):
         for N in range(0, 8):
@@ -699,6 +783,9 @@ def run_job(job):
         elif kind == "randgrid":
             rec.count += 1
             ev_randgrid(rec, payload)
+        elif kind == "history":
+            rec.count += 1
+            ev_history(rec, payload)
         else:
             ev_small_batch(rec, payload)
         if os.environ.get("C15_TIMING"):
@@ -712,7 +799,7 @@ def weight(job):
     kind, p = job
     if kind == "grid":
         return p["N"] ** 2 * (3 if p["alg"] == "cube4D" else 1) * (0.5 if p.get("oracle_only") else 1)
-    if kind == "randgrid":
+    if kind in ("randgrid", "history"):
         return p["N"] ** 2
     return 50
 
@@ -776,5 +863,5 @@ def run(ctx):
 
 
 def replay(ctx, cases):
-    jobs = [((c["kind"], c) if c["kind"] in ("grid", "randgrid") else ("small", [c])) for c in cases]
+    jobs = [((c["kind"], c) if c["kind"] in ("grid", "randgrid", "history") else ("small", [c])) for c in cases]
     execute(ctx, jobs, parallel=False)
